@@ -2,3 +2,6 @@ import NTV.Proofs.C12
 #print axioms NTV.C12.shift_in_range
 #print axioms NTV.C12.root_test_sound
 #print axioms NTV.C12.linear_case_inverse
+#print axioms NTV.C12.division_contract
+#print axioms NTV.C12.gcd_divides_both
+#print axioms NTV.C12.input_reduction
